@@ -129,6 +129,8 @@ func newProg(r *h.Rand) *prog {
 		bind("i", vInt(int64(r.Intn(9))-1)),
 		bind("j", vInt(int64(r.Intn(5)))),
 		bind("z", vInt(0)),
+		bind("bi", vInt(9007199254740993)),
+		bind("bj", vInt(9007199254740992)),
 		bind("f", vFloat([]float64{1.5, 0, 2, -0.25, 100}[r.Intn(5)])),
 		bind("s", vStr(r.Pick(specialStrings))),
 		bind("e", vStr("")),
@@ -148,6 +150,7 @@ func newProg(r *h.Rand) *prog {
 		bind("ms", vMapT("a", vT2("na<", 1, true), "b", vT2("nb", 2, false), "c", vT2("", 0, false))),
 		bind("mz", vMapI("k", vInt(0))),
 		bind("me", vMapI("", vStr(r.Pick(specialStrings)), "k", vStr(""))),
+		bind("mn", vMapI("p", vPtr("T1", nil), "m", nilMapI(), "s", nilSliceI(), "i", vNil(), "v", vInt(1))),
 	)
 	p.globals = sx.L(
 		bind("g", vStr(r.Pick(specialStrings))),
@@ -157,7 +160,8 @@ func newProg(r *h.Rand) *prog {
 	)
 	switch r.Intn(5) {
 	case 0, 4:
-		p.data = vMapI("A", genScalar(r), "B", vStr(r.Pick(specialStrings)), "L", genSliceI(r))
+		p.data = vMapI("A", genScalar(r), "B", vStr(r.Pick(specialStrings)), "L", genSliceI(r),
+			"Np", vPtr("T1", nil), "Nm", nilMapI(), "Ns", nilSliceI(), "Ni", vNil(), "M", vMapI("Np", vPtr("T1", nil), "k", vInt(0)))
 	case 1:
 		p.data = vInt(int64(r.Intn(50)))
 	case 2:
@@ -177,7 +181,7 @@ func (g *pgen) intExpr(d int) string {
 		return r.Pick([]string{"nope", "i / z", "l[99]", "st.Missing", "np.A", "i % z", "s - 1", "li[-1]"})
 	}
 	if d <= 0 {
-		return r.Pick([]string{"i", "j", "z", "1", "2", "0", "i", "st.A", "len(l)", "li[0]", "pt.A"})
+		return r.Pick([]string{"i", "j", "z", "1", "2", "0", "i", "st.A", "len(l)", "li[0]", "pt.A", "bi", "bj", "i", "j"})
 	}
 	switch r.Intn(9) {
 	case 0:
@@ -368,9 +372,13 @@ func (g *pgen) callAction() string {
 		}
 		return "{{ " + args[k] + " | " + f.name + r.Pick([]string{"(" + join(with) + ")", ": " + join(with)}) + tail + " }}"
 	case 4:
-		// slot marker with nothing piped, or nested call with a slot
+		// slot marker with nothing piped, or nested call with a slot (often in the variadic tail)
 		with := append([]string{}, args...)
-		with[r.Intn(n)] = "_"
+		if f.variadic && n > len(f.kinds)-1 && r.Chance(60) {
+			with[len(f.kinds)-1+r.Intn(n-len(f.kinds)+1)] = "_"
+		} else {
+			with[r.Intn(n)] = "_"
+		}
 		return "{{ " + r.Pick([]string{f.name + "(" + join(with) + ")", "ident(" + f.name + "(" + join(with) + "))", "s | ident(" + f.name + "(" + join(with) + "))"}) + " }}"
 	}
 	return "{{ " + g.strExpr(0) + " | ident | " + f.name + "(" + join(args[1:]) + ")" + tail + " }}"
@@ -421,6 +429,9 @@ func (g *pgen) weights() []interface{} {
 		w["let"] = 3
 	case "isset":
 		w["issetp"] = 8
+	case "errors":
+		w["call"] = 5
+		w["issetp"] = 2
 	case "fields":
 		w["print"] = 14
 		w["issetp"] = 3
@@ -655,7 +666,8 @@ func (g *pgen) stmt(d int) string {
 		g.tag("isset")
 		args := []string{}
 		n := 1 + r.Intn(3)
-		pool := []string{"m.k", "m.zz", "st.P", "st.P.P", "st.P.P.A", "np", "np.A", "l[1]", "l[9]", "nope", "nope.x", "m", "nm", "nm.k", "n", "s", "e", "z", "ff", "st.D.a", "st.D.zz", "st.C[0]", "st.I", "pt.P", ".A", ".zz", "li[1]", "m[\"k\"]", "st.hidden", "st.Missing", "l[i]", "m[s]", "me[\"\"]", "me[e]", "m[e]", "me.k", "ms.a", "ms.a.Name", "ms.zz.Name", "mz.k", "ms[\"b\"].Ok"}
+		pool := []string{"m.k", "m.zz", "st.P", "st.P.P", "st.P.P.A", "np", "np.A", "l[1]", "l[9]", "nope", "nope.x", "m", "nm", "nm.k", "n", "s", "e", "z", "ff", "st.D.a", "st.D.zz", "st.C[0]", "st.I", "pt.P", ".A", ".zz", "li[1]", "m[\"k\"]", "st.hidden", "st.Missing", "l[i]", "m[s]", "me[\"\"]", "me[e]", "m[e]", "me.k", "ms.a", "ms.a.Name", "ms.zz.Name", "mz.k", "ms[\"b\"].Ok",
+			"mn.p", "mn.m", "mn.s", "mn.i", "mn.v", "mn[\"p\"]", "mn.p.A", ".Np", ".Nm", ".Ns", ".Ni", ".M.Np", ".M.k", ".M.zz", ".A", ".Np.A", ".L"}
 		for k := 0; k < n; k++ {
 			args = append(args, r.Pick(pool))
 		}
